@@ -495,7 +495,9 @@ func script(p Plan, out *vk.Outcome) error {
 				}
 			}
 		case "send", "trysend":
-			if r.op == "trysend" && r.err == nil && (closeCall == 0 || r.call < closeCall) { // (a TrySend that starts after the sender's own Close is misuse)
+			// (only TrySends that had returned before the sender's own Close was called: one that overlaps Close may
+			// legitimately report the close - with Close(nil) that is (false, nil) - and one started later is misuse)
+			if r.op == "trysend" && r.err == nil && (closeCall == 0 || r.ret < closeCall) {
 				// documented: "If the receiver is already closed, returns ErrClosedPipe. If ctx expires before x
 				// can be sent, returns ctx.Err()" - TrySend checks these before it tries to send.
 				if rcloseRet != 0 && r.call > rcloseRet {
